@@ -24,12 +24,9 @@ MUTANTS = [
                                          (P, "} else if delta >= 269 {", "} else if delta > 269 {")], "delta 269 encoded with the 1-byte extension"),
     m("c01-enc-len-lt-12", ["C01"], [(P, "if value.len() <= 12 {\n                    byte |= value.len() as u8;", "if value.len() < 12 {\n                    byte |= value.len() as u8;"),
                                       (P, "if value.len() > 12 && value.len() < 269 {", "if value.len() >= 12 && value.len() < 269 {")], "length 12 encoded with an extension byte... as 13-1"),
-    m("c01-marker-for-empty-payload", ["C01", "C04"], [(P, "        if self.header.code != MessageClass::Empty && !self.payload.is_empty()\n        {\n            buf_length += 1 + self.payload.len();", "        if self.header.code != MessageClass::Empty\n        {\n            buf_length += 1 + self.payload.len();"),
-                                                        (P, "                if self.header.code != MessageClass::Empty\n                    && !self.payload.is_empty()\n                {", "                if self.header.code != MessageClass::Empty\n                {")], "payload marker emitted for an empty payload"),
     m("c01-set-version-mask", ["C01", "C05"], [(H, "let type_tkl = 0x3F & self.ver_type_tkl;", "let type_tkl = 0x1F & self.ver_type_tkl;")], "set_version clears a type bit"),
     # ---- C02 / C03
     m("c02-dec-drops-empty-values", ["C02"], [(P, "                    options\n                        .entry(options_number)\n                        .or_default()\n                        .push_back(options_value);", "                    if !options_value.is_empty() {\n                        options\n                            .entry(options_number)\n                            .or_default()\n                            .push_back(options_value);\n                    }")], "decoder drops zero-length option values"),
-    m("c02-dec-push-front", ["C02", "C03"], [(P, "                        .or_default()\n                        .push_back(options_value);", "                        .or_default()\n                        .push_front(options_value);")], "decoder reverses repeated options"),
     m("c03-trunc-ext16", ["C03"], [(P, "                            if idx + 1 >= buf.len() {\n                                return Err(MessageError::InvalidOptionLength);\n                            }\n\n                            delta", "                            if idx + 1 > buf.len() {\n                                return Err(MessageError::InvalidOptionLength);\n                            }\n\n                            delta")], "panic on a truncated 2-byte delta extension"),
     m("c03-tkl-check-removed", ["C03"], [(P, "                if token_length > 8 {\n                    return Err(MessageError::InvalidTokenLength);\n                }\n", "")], "token length 9-15 accepted"),
     m("c03-len-nibble15", ["C03"], [(P, "                        15 => {\n                            return Err(MessageError::InvalidOptionLength);\n                        }\n", "")], "length nibble 15 accepted as length 15"),
@@ -45,17 +42,13 @@ MUTANTS = [
                                      (H, "            0x88 => {\n                MessageClass::Response(ResponseType::RequestEntityIncomplete)", "            0x89 => {\n                MessageClass::Response(ResponseType::RequestEntityIncomplete)"),
                                      (H, "            MessageClass::Response(ResponseType::Conflict) => 0x89,", "            MessageClass::Response(ResponseType::Conflict) => 0x88,"),
                                      (H, "            MessageClass::Response(ResponseType::RequestEntityIncomplete) => {\n                0x88", "            MessageClass::Response(ResponseType::RequestEntityIncomplete) => {\n                0x89")], "4.08 / 4.09 swapped consistently"),
-    m("c05-is-error-threshold", ["C05"], [(H, ">= MessageClass::Response(ResponseType::BadRequest)", ">= MessageClass::Response(ResponseType::Unauthorized)")], "4.00 not reported as an error"),
     # ---- C06
-    m("c06-no-reverse", ["C06"], [(OV, "        output.reverse();\n", "")], "multi-byte uint values little-endian"),
-    m("c06-decode-ge", ["C06"], [(OV, "if encoded.len() > value_size {", "if encoded.len() >= value_size {")], "full-width values rejected"),
     # ---- C07
     m("c07-non-answered-with-ack", ["C07"], [(RS, "MessageType::NonConfirmable => MessageType::NonConfirmable,", "MessageType::NonConfirmable => MessageType::Acknowledgement,")], "NON request answered with ACK"),
     m("c07-token-not-copied", ["C07"], [(RS, "        packet.set_token(request.get_token().to_vec());\n", "        if request.get_token().len() < 8 {\n            packet.set_token(request.get_token().to_vec());\n        }\n")], "8-byte tokens not copied"),
     m("c07-payload-echoed", ["C07"], [(RS, "        packet.set_token(request.get_token().to_vec());\n", "        packet.set_token(request.get_token().to_vec());\n        if request.header.get_version() != 1 {\n            packet.payload = request.payload.clone();\n        }\n")], "request body echoed for version != 1"),
     # ---- C08
     m("c08-more-flag-off-by-one", ["C08"], [(BH, "        let has_more_chunks = chunks.next().is_some();", "        let has_more_chunks = chunks.next().is_some()\n            || cached_payload.len() % request_block_size == 0;")], "more flag set on the last block when the body is a multiple of the block size"),
-    m("c08-cache-never-released", ["C08"], [(BH, "                if !has_more_chunks {\n                    state.cached_response = None\n                }", "                if !has_more_chunks && block2.num == 0 {\n                    state.cached_response = None\n                }")], "cache entry kept after the final block"),
     m("c08-options-not-cloned", ["C08"], [(BH, "        for (&option, value) in src.options() {\n            dst.set_option(CoapOption::from(option), value.clone());\n        }", "        for (&option, value) in src.options() {\n            if option != 4 {\n                dst.set_option(CoapOption::from(option), value.clone());\n            }\n        }")], "ETag not repeated in follow-up blocks"),
     # ---- C09
     m("c09-retransmit-inserts", ["C09"], [(BH, "                    payload_offset..payload_offset + request_block1.size(),", "                    payload_offset\n                        ..if payload_offset < cached_payload.len()\n                            && request_block1.more\n                        {\n                            payload_offset\n                        } else {\n                            payload_offset + request_block1.size()\n                        },")], "a retransmitted non-final block is inserted instead of replacing the buffered one"),
@@ -70,17 +63,14 @@ MUTANTS = [
     m("c12-key-without-requester", ["C12"], [(BH, "            requester: request.source.clone(),", "            requester: None,")], "cache key ignores the endpoint"),
     m("c12-key-joined-path", ["C12"], [(BH, "            path: request.get_path_as_vec().unwrap_or_default(),", "            path: vec![request.get_path()],")], "cache key built from the joined path"),
     m("c12-key-without-method", ["C12"], [(BH, "            request_type_ord: u8::from(MessageClass::Request(\n                *request.get_method(),\n            )),", "            request_type_ord: 0,")], "cache key ignores the method"),
-    m("c12-clone-copies-mid", ["C12"], [(BH, "        dst.header.code = src.header.code;\n", "        dst.header.code = src.header.code;\n        dst.header.message_id = src.header.message_id;\n")], "cached blocks carry the first request's message id"),
     # ---- C13
     m("c13-szx-mask", ["C13"], [(BV, "| u32::from(block_value.size_exponent & 0x7);", "| u32::from(block_value.size_exponent & 0x3);")], "size exponents 4..7 encoded modulo 4"),
     m("c13-size-cap", ["C13"], [(BV, "        1 << (self.size_exponent + 4)", "        1 << (self.size_exponent.min(6) + 4)")], "size exponent 7 reported as 1024"),
     m("c13-num-high-bits", ["C13"], [(BV, "        let scalar = u32::from(block_value.num) << 4", "        let scalar = u32::from(block_value.num & 0x0FFF) << 4")], "block numbers >= 4096 lose their high bits (the original defect, differently)"),
     m("c13-szx-limit", ["C13"], [(BV, "if size_exponent > 0x7 {", "if size_exponent > 0x8 {")], "size 4096 accepted"),
     # ---- C14 / C15
-    m("c14-register-matches-token", ["C14"], [(OB, "            .position(|x| x.endpoint == observer.endpoint)", "            .position(|x| x.endpoint == observer.endpoint && x.token == observer.token)")], "second registration with another token adds a second observer"),
     m("c14-deregister-endpoint-only", ["C14"], [(OB, "                x.endpoint == *observer_endpoint && x.token == *token", "                x.endpoint == *observer_endpoint")], "deregistration ignores the token"),
     m("c14-changed-creates", ["C14"], [(OB, "            .entry(resource.to_string())\n            .and_modify(|resource| {", "            .entry(resource.to_string())\n            .or_insert(Resource {\n                observers: Vec::new(),\n                sequence: 0,\n            });\n        self.resources\n            .entry(resource.to_string())\n            .and_modify(|resource| {")], "a round on an unobserved path creates a record"),
-    m("c15-evict-lt", ["C15"], [(OB, "                    observer.unacknowledged_messages\n                        <= u16::from(unacknowledged_limit)", "                    observer.unacknowledged_messages\n                        < u16::from(unacknowledged_limit)\n                        || unacknowledged_limit > 3")], "eviction one round early for small limits"),
     m("c15-non-counted", ["C15"], [(OB, "                    if is_confirmable {\n                        observer.unacknowledged_messages += 1;", "                    if is_confirmable || message_id == 0xFFFF {\n                        observer.unacknowledged_messages += 1;")], "a NON round with a particular id counts"),
     m("c15-ack-ignores-endpoint", ["C15"], [(OB, "                    return x.endpoint == *observer_endpoint\n                        && observe_msg_id == message_id;", "                    return observe_msg_id == message_id;")], "acknowledgement from another endpoint resets the count"),
     # ---- C16 / C17 / C18
@@ -89,10 +79,16 @@ MUTANTS = [
     m("c18-guard-removed", ["C18"], [(LF, "        if self.0.error.is_none() {\n            self.0.error = self.0.write.write_char('=').err();\n        }", "        self.0.error = self.0.write.write_char('=').err();")], "'=' written although an earlier write failed"),
     m("c18-finish-ok", ["C18"], [(LF, "    pub fn finish(self) -> Result<(), core::fmt::Error> {\n        if let Some(e) = self.error {\n            Err(e)", "    pub fn finish(self) -> Result<(), core::fmt::Error> {\n        if let (Some(e), true) = (self.error, self.is_first) {\n            Err(e)")], "final result reports success after a failure"),
     # ---- C19
-    m("c19-set-path-no-clear", ["C19"], [(RQ, "        self.message.clear_option(CoapOption::UriPath);\n", "")], "set_path appends to the existing path"),
-    m("c19-patch-ipatch-swapped", ["C19"], [(RQ, "            MessageClass::Request(Method::Patch) => &Method::Patch,\n            MessageClass::Request(Method::IPatch) => &Method::IPatch,", "            MessageClass::Request(Method::Patch) => &Method::IPatch,\n            MessageClass::Request(Method::IPatch) => &Method::Patch,")], "get_method swaps PATCH and iPATCH"),
     m("c19-trait-iter-skips", ["C19"], [(M02, "            let (number, values) = self.raw_iter.next()?;\n            self.head = Some((*number, values.iter()));", "            let (number, values) = self.raw_iter.next()?;\n            let mut it = values.iter();\n            if values.len() > 2 {\n                it.next();\n            }\n            self.head = Some((*number, it));")], "0.2 trait option iterator skips a value of long lists"),
     # ---- C20
     m("c20-expiry-ignored", ["C20"], [(BH, "            states: LruCache::with_expiry_duration(\n                config.cache_expiry_duration,\n            ),", "            states: LruCache::with_expiry_duration(\n                config.cache_expiry_duration.max(Duration::from_secs(1)),\n            ),")], "expiry shorter than a second ignored"),
     m("c20-entry-insert-fresh", ["C20", "C08"], [(BH, "    pub fn intercept_response(\n        &mut self,\n        request: &mut CoapRequest<Endpoint>,\n    ) -> Result<bool, HandlingError> {\n        let state = self\n            .states\n            .entry(request.deref().into())\n            .or_insert(BlockState::default());", "    pub fn intercept_response(\n        &mut self,\n        request: &mut CoapRequest<Endpoint>,\n    ) -> Result<bool, HandlingError> {\n        if self.states.len() > 40 {\n            self.states.clear();\n        }\n        let state = self\n            .states\n            .entry(request.deref().into())\n            .or_insert(BlockState::default());")], "cache flushed when more than 40 keys are live"),
+    # ---- replacements for mutants the crate's own tests already catch
+    m("c02-dec-dedupes", ["C02"], [(P, "                    options\n                        .entry(options_number)\n                        .or_default()\n                        .push_back(options_value);", "                    let list = options.entry(options_number).or_default();\n                    if list.back() != Some(&options_value) {\n                        list.push_back(options_value);\n                    }")], "decoder drops a repeated identical option value"),
+    m("c05-content-after-badrequest", ["C05"], [(H, "    Changed,\n    Content,\n    Continue,\n\n    // 400 Codes\n    BadRequest,", "    Changed,\n    Continue,\n\n    // 400 Codes\n    BadRequest,\n    Content,")], "variant order makes 2.05 Content an error"),
+    m("c06-256-fast-path", ["C06"], [(OV, "    } else if value_as_u64 < 256 {", "    } else if value_as_u64 <= 256 {")], "256 encoded as one zero byte"),
+    m("c06-decode-leading-zero", ["C06"], [(OV, "    if encoded.len() > value_size {", "    if encoded.len() > value_size && encoded[0] != 0 {")], "over-long values with a leading zero accepted"),
+    m("c14-register-keeps-count", ["C14"], [(OB, "            resource.observers[position] = observer;", "            resource.observers[position].token = observer.token;")], "re-registration keeps the unacknowledged count and pending id"),
+    m("c19-set-path-root", ["C19"], [(RQ, "            if i == 0 && s.is_empty() {", "            if i == 0 && s.is_empty() && path.len() > 1 {")], "set_path(\"/\") stores two empty segments"),
+    m("c19-fetch-ipatch-swapped", ["C19"], [(RQ, "            MessageClass::Request(Method::Fetch) => &Method::Fetch,", "            MessageClass::Request(Method::Fetch) => &Method::IPatch,"), (RQ, "            MessageClass::Request(Method::IPatch) => &Method::IPatch,", "            MessageClass::Request(Method::IPatch) => &Method::Fetch,")], "get_method swaps FETCH and iPATCH"),
 ]
